@@ -423,12 +423,12 @@ class XsdAttributeGroup(
             elif child.tag == nm.XSD_ANY_ATTRIBUTE:
                 any_attribute = self.builders.any_attribute_class(child, self.schema, self)
                 if None in attributes:
-                    attributes[None] = attr = copy(attributes[None])
-                    assert isinstance(attr, XsdAnyAttribute)
-                    attr.intersection(any_attribute)
-                    attr.parent = self
-                else:
-                    attributes[None] = any_attribute
+                    # The complete wildcard keeps the processContents of the local
+                    # wildcard and intersects the namespace constraints.
+                    base_wildcard = attributes[None]
+                    assert isinstance(base_wildcard, XsdAnyAttribute)
+                    any_attribute.intersection(base_wildcard)
+                attributes[None] = any_attribute
 
             elif child.tag == nm.XSD_ATTRIBUTE:
                 attribute = self.builders.attribute_class(child, self.schema, self)
